@@ -1,5 +1,677 @@
 import Tickit.Model.Utf8
+/-
+  Helper lemmas for C07 (utf8.c, unicode.h).  Core Lean only.
+-/
+namespace Tickit
+namespace Width
+
+/-! ### interval tables and `bisearch` -/
+
+theorem chainOk_head_lt : ∀ (e : Nat × Nat) (rest : List (Nat × Nat)), chainOk (e :: rest) = true →
+    ∀ x ∈ rest, e.2 < x.1 := by
+  intro e rest
+  induction rest generalizing e with
+  | nil => intro _ x hx; cases hx
+  | cons f r ih =>
+    intro h x hx
+    simp only [chainOk, Bool.and_eq_true, decide_eq_true_eq] at h
+    obtain ⟨⟨_, h2⟩, h3⟩ := h
+    rcases List.mem_cons.1 hx with rfl | hx
+    · exact h2
+    · have := ih f h3 x hx
+      have hf : f.1 ≤ f.2 := by
+        cases r with
+        | nil => simpa [chainOk] using h3
+        | cons g r' => simp only [chainOk, Bool.and_eq_true, decide_eq_true_eq] at h3; exact h3.1.1
+      omega
+
+theorem chainOk_tail : ∀ (e : Nat × Nat) (rest : List (Nat × Nat)), chainOk (e :: rest) = true → chainOk rest = true := by
+  intro e rest h
+  cases rest with
+  | nil => rfl
+  | cons f r => simp only [chainOk, Bool.and_eq_true] at h; exact h.2
+
+theorem chainOk_wf : ∀ (l : List (Nat × Nat)), chainOk l = true → ∀ e ∈ l, e.1 ≤ e.2 := by
+  intro l
+  induction l with
+  | nil => intro _ e he; cases he
+  | cons f r ih =>
+    intro h e he
+    rcases List.mem_cons.1 he with rfl | he
+    · cases r with
+      | nil => simpa [chainOk] using h
+      | cons g r' => simp only [chainOk, Bool.and_eq_true, decide_eq_true_eq] at h; exact h.1.1
+    · exact ih (chainOk_tail f r h) e he
+
+theorem chainOk_pairwise : ∀ (l : List (Nat × Nat)), chainOk l = true → l.Pairwise (fun a b => a.2 < b.1) := by
+  intro l
+  induction l with
+  | nil => intro _; exact List.Pairwise.nil
+  | cons f r ih =>
+    intro h
+    exact List.Pairwise.cons (chainOk_head_lt f r h) (ih (chainOk_tail f r h))
+
+/-- A table is sorted and non-overlapping. -/
+def Sorted (t : Table) : Prop := chainOk t.toList = true
+
+theorem at_eq (t : Table) (i : Int) (h0 : 0 ≤ i) (h1 : i < t.size) :
+    ∃ h : i.toNat < t.size, t.at i = t[i.toNat] := by
+  have h : i.toNat < t.size := by omega
+  refine ⟨h, ?_⟩
+  simp [Table.at, Array.getD, h]
+
+theorem sorted_wf {t : Table} (hs : Sorted t) (i : Int) (h0 : 0 ≤ i) (h1 : i < t.size) :
+    (t.at i).1 ≤ (t.at i).2 := by
+  obtain ⟨h, he⟩ := at_eq t i h0 h1
+  rw [he]
+  exact chainOk_wf _ hs _ (by simp [Array.mem_toList_iff])
+
+theorem sorted_lt {t : Table} (hs : Sorted t) (i j : Int) (h0 : 0 ≤ i) (hij : i < j) (h1 : j < t.size) :
+    (t.at i).2 < (t.at j).1 := by
+  obtain ⟨hi, hei⟩ := at_eq t i h0 (by omega)
+  obtain ⟨hj, hej⟩ := at_eq t j (by omega) h1
+  rw [hei, hej]
+  have hp := chainOk_pairwise _ hs
+  rw [List.pairwise_iff_getElem] at hp
+  have := hp i.toNat j.toNat (by simpa using hi) (by simpa using hj) (by omega)
+  simpa using this
+
+/-- `ucs` lies in the interval with index `k`. -/
+def Hit (t : Table) (ucs : Nat) (k : Int) : Prop := (t.at k).1 ≤ ucs ∧ ucs ≤ (t.at k).2
+
+theorem bisearchLoop_spec {t : Table} (hs : Sorted t) (ucs : Nat) :
+    ∀ (fuel : Nat) (min max : Int), 0 ≤ min → max < t.size → min ≤ max + 1 → max + 2 - min ≤ fuel →
+      ∃ b, bisearchLoop t ucs fuel min max = some b ∧
+        (b = true ↔ ∃ k, min ≤ k ∧ k ≤ max ∧ Hit t ucs k) := by
+  intro fuel
+  induction fuel with
+  | zero =>
+    intro min max h0 h1 hr hf
+    exfalso; omega
+  | succ n ih =>
+    intro min max h0 h1 hr hf
+    unfold bisearchLoop
+    by_cases hmm : max ≥ min
+    · simp only [hmm, if_true]
+      have hmid0 : min ≤ (min + max) / 2 := by omega
+      have hmid1 : (min + max) / 2 ≤ max := by omega
+      generalize hm : (min + max) / 2 = mid at *
+      by_cases hgt : ucs > (t.at mid).2
+      · simp only [hgt, if_true]
+        obtain ⟨b, hb, hiff⟩ := ih (mid + 1) max (by omega) h1 (by omega) (by omega)
+        refine ⟨b, hb, hiff.trans ⟨?_, ?_⟩⟩
+        · rintro ⟨k, h2, h3, h4⟩; exact ⟨k, by omega, h3, h4⟩
+        · rintro ⟨k, h2, h3, h4⟩
+          refine ⟨k, ?_, h3, h4⟩
+          rcases Int.lt_or_le mid k with h | h
+          · omega
+          · exfalso
+            have : (t.at k).2 ≤ (t.at mid).2 := by
+              rcases Int.lt_or_le k mid with h' | h'
+              · have := sorted_lt hs k mid (by omega) h' (by omega)
+                have := sorted_wf hs mid (by omega) (by omega)
+                omega
+              · have : k = mid := by omega
+                subst this; omega
+            unfold Hit at h4; omega
+      · simp only [hgt, if_false]
+        by_cases hlt : ucs < (t.at mid).1
+        · simp only [hlt, if_true]
+          obtain ⟨b, hb, hiff⟩ := ih min (mid - 1) h0 (by omega) (by omega) (by omega)
+          refine ⟨b, hb, hiff.trans ⟨?_, ?_⟩⟩
+          · rintro ⟨k, h2, h3, h4⟩; exact ⟨k, h2, by omega, h4⟩
+          · rintro ⟨k, h2, h3, h4⟩
+            refine ⟨k, h2, ?_, h4⟩
+            rcases Int.lt_or_le k mid with h | h
+            · omega
+            · exfalso
+              have : (t.at mid).1 ≤ (t.at k).1 := by
+                rcases Int.lt_or_le mid k with h' | h'
+                · have := sorted_lt hs mid k (by omega) h' (by omega)
+                  have := sorted_wf hs mid (by omega) (by omega)
+                  omega
+                · have : k = mid := by omega
+                  subst this; omega
+              unfold Hit at h4; omega
+        · simp only [hlt, if_false]
+          exact ⟨true, rfl, by simp; exact ⟨mid, by omega, by omega, by unfold Hit; omega⟩⟩
+    · simp only [hmm, if_false]
+      exact ⟨false, rfl, by simp; intro k h2 h3; omega⟩
+
+theorem inTable_iff_hit (t : Table) (c : Nat) :
+    InTable t c ↔ ∃ k : Int, 0 ≤ k ∧ k ≤ (t.size : Int) - 1 ∧ Hit t c k := by
+  constructor
+  · rintro ⟨e, he, h1, h2⟩
+    obtain ⟨i, hi, rfl⟩ := List.getElem_of_mem he
+    have hi' : i < t.size := by simpa using hi
+    refine ⟨(i : Int), by omega, by omega, ?_⟩
+    obtain ⟨_, hat⟩ := at_eq t (i : Int) (by omega) (by omega)
+    unfold Hit; rw [hat]; simpa using ⟨h1, h2⟩
+  · rintro ⟨k, h0, h1, hh⟩
+    obtain ⟨hk, hat⟩ := at_eq t k h0 (by omega)
+    unfold Hit at hh; rw [hat] at hh
+    exact ⟨t[k.toNat], by simp [Array.mem_toList_iff], hh.1, hh.2⟩
+
+/-- `bisearch` decides membership in a sorted, non-overlapping table. -/
+theorem bisearch_iff_inTable {t : Table} (hs : Sorted t) (c : Nat) :
+    bisearch t c = true ↔ InTable t c := by
+  rw [inTable_iff_hit]
+  unfold bisearch
+  by_cases h0 : t.size = 0
+  · simp only [h0, if_true]
+    constructor
+    · intro h; cases h
+    · rintro ⟨k, h1, h2, _⟩; simp at h2; omega
+  · simp only [h0, if_false]
+    have hpos : 0 < t.size := Nat.pos_of_ne_zero h0
+    by_cases hout : c < (t.at 0).1 ∨ c > (t.at ((t.size : Int) - 1)).2
+    · simp only [hout, if_true]
+      constructor
+      · intro h; cases h
+      · rintro ⟨k, h1, h2, h3⟩
+        exfalso
+        unfold Hit at h3
+        rcases hout with h | h
+        · have : (t.at 0).1 ≤ (t.at k).1 := by
+            rcases Int.lt_or_le 0 k with h' | h'
+            · have := sorted_lt hs 0 k (by omega) h' (by omega)
+              have := sorted_wf hs 0 (by omega) (by omega)
+              omega
+            · have : k = 0 := by omega
+              subst this; omega
+          omega
+        · have : (t.at k).2 ≤ (t.at ((t.size : Int) - 1)).2 := by
+            rcases Int.lt_or_le k ((t.size : Int) - 1) with h' | h'
+            · have := sorted_lt hs k ((t.size : Int) - 1) h1 h' (by omega)
+              have := sorted_wf hs ((t.size : Int) - 1) (by omega) (by omega)
+              omega
+            · have : k = (t.size : Int) - 1 := by omega
+              subst this; omega
+          omega
+    · simp only [hout, if_false]
+      obtain ⟨b, hb, hiff⟩ := bisearchLoop_spec hs c (t.size + 1) 0 ((t.size : Int) - 1) (by omega) (by omega) (by omega) (by omega)
+      rw [hb]
+      simpa using hiff
+
+/-- Fuel `size + 1` is always enough: the `none` (out of fuel) arm of `bisearch` is dead. -/
+theorem bisearchLoop_fuel {t : Table} (hs : Sorted t) (c : Nat) (_h : 0 < t.size) :
+    bisearchLoop t c (t.size + 1) 0 ((t.size : Int) - 1) ≠ none := by
+  obtain ⟨b, hb, _⟩ := bisearchLoop_spec hs c (t.size + 1) 0 ((t.size : Int) - 1) (by omega) (by omega) (by omega) (by omega)
+  rw [hb]; simp
+
+theorem inTableLin_iff (t : Table) (c : Nat) : inTableLin t c = true ↔ InTable t c := by
+  unfold inTableLin InTable
+  rw [List.any_eq_true]
+  constructor
+  · rintro ⟨e, he, h⟩
+    simp only [Bool.and_eq_true, decide_eq_true_eq] at h
+    exact ⟨e, he, h⟩
+  · rintro ⟨e, he, h⟩
+    exact ⟨e, he, by simpa using h⟩
+
+end Width
+end Tickit
+
 namespace Tickit
 namespace Utf8
+
+/-! ### bit operations as arithmetic -/
+
+theorem and_3f (x : Nat) : x &&& 0x3f = x % 64 := Nat.and_two_pow_sub_one_eq_mod x 6
+theorem and_1f (x : Nat) : x &&& 0x1f = x % 32 := Nat.and_two_pow_sub_one_eq_mod x 5
+theorem and_0f (x : Nat) : x &&& 0x0f = x % 16 := Nat.and_two_pow_sub_one_eq_mod x 4
+theorem and_07 (x : Nat) : x &&& 0x07 = x % 8 := Nat.and_two_pow_sub_one_eq_mod x 3
+theorem and_03 (x : Nat) : x &&& 0x03 = x % 4 := Nat.and_two_pow_sub_one_eq_mod x 2
+theorem and_01 (x : Nat) : x &&& 0x01 = x % 2 := Nat.and_two_pow_sub_one_eq_mod x 1
+theorem and_7f (x : Nat) : x &&& 0x7f = x % 128 := Nat.and_two_pow_sub_one_eq_mod x 7
+theorem shr_6 (x : Nat) : x >>> 6 = x / 64 := Nat.shiftRight_eq_div_pow x 6
+
+theorem or_80 (y : Nat) (h : y < 64) : 0x80 ||| y = 128 + y := by
+  have := Nat.two_pow_add_eq_or_of_lt (i := 7) (b := y) (by omega) 1
+  simpa using this.symm
+theorem or_c0 (y : Nat) (h : y < 32) : 0xc0 ||| y = 192 + y := by
+  have := Nat.two_pow_add_eq_or_of_lt (i := 5) (b := y) (by omega) 6
+  simpa using this.symm
+theorem or_e0 (y : Nat) (h : y < 16) : 0xe0 ||| y = 224 + y := by
+  have := Nat.two_pow_add_eq_or_of_lt (i := 4) (b := y) (by omega) 14
+  simpa using this.symm
+theorem or_f0 (y : Nat) (h : y < 8) : 0xf0 ||| y = 240 + y := by
+  have := Nat.two_pow_add_eq_or_of_lt (i := 3) (b := y) (by omega) 30
+  simpa using this.symm
+theorem or_f8 (y : Nat) (h : y < 4) : 0xf8 ||| y = 248 + y := by
+  have := Nat.two_pow_add_eq_or_of_lt (i := 2) (b := y) (by omega) 62
+  simpa using this.symm
+theorem or_fc (y : Nat) (h : y < 2) : 0xfc ||| y = 252 + y := by
+  have := Nat.two_pow_add_eq_or_of_lt (i := 1) (b := y) (by omega) 126
+  simpa using this.symm
+
+theorem contAcc_eq (cp b : Nat) : contAcc cp b = cp * 64 + b % 64 := by
+  unfold contAcc
+  rw [Nat.shiftLeft_eq, and_3f]
+  have := Nat.two_pow_add_eq_or_of_lt (i := 6) (b := b % 64) (by omega) cp
+  rw [Nat.mul_comm] at this
+  simpa using this.symm
+
+theorem leadBits_eq (b0 : Nat) :
+    leadBits b0 = if b0 < 0xe0 then b0 % 32 else if b0 < 0xf0 then b0 % 16 else b0 % 8 := by
+  unfold leadBits; rw [and_1f, and_0f, and_07]
+
+/-! ### `next_utf8` in arithmetic form -/
+
+theorem nextUtf8_ascii (mem : Mem) (p : Nat) (len : Option Nat) (hl : len ≠ some 0)
+    (h0 : (mem p).toNat ≠ 0) (h1 : (mem p).toNat < 0x80) :
+    nextUtf8 mem p len = .ok 1 (mem p).toNat (p + 1) := by
+  unfold nextUtf8; simp [hl, h0, h1]
+
+theorem nextUtf8_2 (mem : Mem) (p : Nat) (len : Option Nat) (hl : lenLt len 2 = false)
+    (h0 : 0xc0 ≤ (mem p).toNat) (h1 : (mem p).toNat < 0xe0) (c1 : (mem (p + 1)).toNat ≠ 0) :
+    nextUtf8 mem p len = .ok 2 ((mem p).toNat % 32 * 64 + (mem (p + 1)).toNat % 64) (p + 2) := by
+  have hl0 : len ≠ some 0 := by rintro rfl; simp [lenLt] at hl
+  have hll : leadLen (mem p).toNat = 2 := by unfold leadLen; (repeat' split) <;> omega
+  have hb0 : (mem p).toNat ≠ 0 := by omega
+  have h80 : ¬ (mem p).toNat < 0x80 := by omega
+  unfold nextUtf8
+  simp only [hl0, hb0, h80, hll, hl, if_false]
+  simp [contLoop, c1, contAcc_eq, leadBits_eq, h1]
+
+theorem nextUtf8_3 (mem : Mem) (p : Nat) (len : Option Nat) (hl : lenLt len 3 = false)
+    (h0 : 0xe0 ≤ (mem p).toNat) (h1 : (mem p).toNat < 0xf0)
+    (c1 : (mem (p + 1)).toNat ≠ 0) (c2 : (mem (p + 2)).toNat ≠ 0) :
+    nextUtf8 mem p len =
+      .ok 3 (((mem p).toNat % 16 * 64 + (mem (p + 1)).toNat % 64) * 64 + (mem (p + 2)).toNat % 64) (p + 3) := by
+  have hl0 : len ≠ some 0 := by rintro rfl; simp [lenLt] at hl
+  have hll : leadLen (mem p).toNat = 3 := by unfold leadLen; (repeat' split) <;> omega
+  have hb0 : (mem p).toNat ≠ 0 := by omega
+  have h80 : ¬ (mem p).toNat < 0x80 := by omega
+  have he0 : ¬ (mem p).toNat < 0xe0 := by omega
+  unfold nextUtf8
+  simp only [hl0, hb0, h80, hll, hl, if_false]
+  simp [contLoop, c1, c2, contAcc_eq, leadBits_eq, he0, h1, Nat.add_assoc]
+
+theorem nextUtf8_4 (mem : Mem) (p : Nat) (len : Option Nat) (hl : lenLt len 4 = false)
+    (h0 : 0xf0 ≤ (mem p).toNat) (h1 : (mem p).toNat < 0xf8)
+    (c1 : (mem (p + 1)).toNat ≠ 0) (c2 : (mem (p + 2)).toNat ≠ 0) (c3 : (mem (p + 3)).toNat ≠ 0) :
+    nextUtf8 mem p len =
+      .ok 4 ((((mem p).toNat % 8 * 64 + (mem (p + 1)).toNat % 64) * 64 + (mem (p + 2)).toNat % 64) * 64
+              + (mem (p + 3)).toNat % 64) (p + 4) := by
+  have hl0 : len ≠ some 0 := by rintro rfl; simp [lenLt] at hl
+  have hll : leadLen (mem p).toNat = 4 := by unfold leadLen; (repeat' split) <;> omega
+  have hb0 : (mem p).toNat ≠ 0 := by omega
+  have h80 : ¬ (mem p).toNat < 0x80 := by omega
+  have he0 : ¬ (mem p).toNat < 0xe0 := by omega
+  have hf0 : ¬ (mem p).toNat < 0xf0 := by omega
+  unfold nextUtf8
+  simp only [hl0, hb0, h80, hll, hl, if_false]
+  simp [contLoop, c1, c2, c3, contAcc_eq, leadBits_eq, he0, hf0, Nat.add_assoc]
+
+/-! ### `tickit_utf8_put` in arithmetic form -/
+
+theorem putBytes_1 (cp : Nat) (h : cp < 0x80) : putBytes cp = [cp] := by
+  have : seqlen cp = 1 := by unfold seqlen; simp [h]
+  unfold putBytes; rw [this]; simp [putTail, putLead, and_7f]; omega
+
+theorem putBytes_2 (cp : Nat) (h0 : 0x80 ≤ cp) (h1 : cp < 0x800) :
+    putBytes cp = [192 + cp / 64, 128 + cp % 64] := by
+  have : seqlen cp = 2 := by unfold seqlen; (repeat' split) <;> omega
+  unfold putBytes; rw [this]
+  simp only [putTail, putLead, shr_6, and_3f, and_1f]
+  rw [or_80 _ (by omega), or_c0 _ (by omega)]
+  have : cp / 64 % 32 = cp / 64 := by omega
+  rw [this]
+
+theorem putBytes_3 (cp : Nat) (h0 : 0x800 ≤ cp) (h1 : cp < 0x10000) :
+    putBytes cp = [224 + cp / 4096, 128 + cp / 64 % 64, 128 + cp % 64] := by
+  have : seqlen cp = 3 := by unfold seqlen; (repeat' split) <;> omega
+  unfold putBytes; rw [this]
+  simp only [putTail, putLead, shr_6, and_3f, and_0f]
+  rw [or_80 _ (by omega), or_80 _ (by omega), or_e0 _ (by omega)]
+  have : cp / 64 / 64 % 16 = cp / 4096 := by omega
+  rw [this]
+
+theorem putBytes_4 (cp : Nat) (h0 : 0x10000 ≤ cp) (h1 : cp < 0x200000) :
+    putBytes cp = [240 + cp / 262144, 128 + cp / 4096 % 64, 128 + cp / 64 % 64, 128 + cp % 64] := by
+  have : seqlen cp = 4 := by unfold seqlen; (repeat' split) <;> omega
+  unfold putBytes; rw [this]
+  simp only [putTail, putLead, shr_6, and_3f, and_07]
+  rw [or_80 _ (by omega), or_80 _ (by omega), or_80 _ (by omega), or_f0 _ (by omega)]
+  have h1 : cp / 64 / 64 / 64 % 8 = cp / 262144 := by omega
+  have h2 : cp / 64 / 64 % 64 = cp / 4096 % 64 := by omega
+  rw [h1, h2]
+
+theorem memOfBytes_toNat (l : List Nat) (i : Nat) (h : ∀ x ∈ l, x < 256) :
+    (memOfBytes l i).toNat = l.getD i 0 := by
+  unfold memOfBytes
+  rw [UInt8.toNat_ofNat']
+  have : l.getD i 0 < 256 := by
+    rw [List.getD_eq_getElem?_getD]
+    cases hh : l[i]? with
+    | none => simp
+    | some x => simp; exact h x (List.mem_of_getElem? hh)
+  omega
+
+
+/-! ### limits -/
+
+/-- Componentwise order of counters. -/
+def Pos.le (p q : Pos) : Prop :=
+  p.bytes ≤ q.bytes ∧ p.codepoints ≤ q.codepoints ∧ p.graphemes ≤ q.graphemes ∧ p.columns ≤ q.columns
+
+theorem Pos.le_refl (p : Pos) : Pos.le p p := ⟨Nat.le_refl _, Int.le_refl _, Int.le_refl _, Int.le_refl _⟩
+
+theorem Pos.le_trans {p q r : Pos} (h1 : Pos.le p q) (h2 : Pos.le q r) : Pos.le p r := by
+  unfold Pos.le at *; omega
+
+theorem Pos.le_adv (p : Pos) (n : Nat) (w : Int) (hw : 0 ≤ w) : Pos.le p (p.adv n w) := by
+  unfold Pos.le Pos.adv; simp only; split <;> omega
+
+theorem le_sumPos : ∀ (cs : List Ch) (p : Pos), (∀ c ∈ cs, 0 ≤ c.w) → Pos.le p (sumPos p cs) := by
+  intro cs
+  induction cs with
+  | nil => intro p _; exact Pos.le_refl p
+  | cons c cs ih =>
+    intro p h
+    unfold sumPos
+    exact Pos.le_trans (Pos.le_adv p c.n c.w (h c (by simp))) (ih _ (fun x hx => h x (by simp [hx])))
+
+theorem within_of_le {L : Option Limit} {p q : Pos} (h : Pos.le p q) (hq : Within L q) : Within L p := by
+  unfold Within at *
+  cases L with
+  | none => trivial
+  | some l =>
+    simp only at *
+    unfold Pos.le at h
+    refine ⟨?_, by omega, by omega, by omega⟩
+    cases hb : l.bytes with
+    | none => simp [leOpt]
+    | some lb => rw [hb] at hq; simp only [leOpt] at *; omega
+
+theorem exceeds_iff (L : Option Limit) (here : Pos) (n : Nat) (w : Int) :
+    exceeds L here n w = true ↔ ¬ Within L (here.adv n w) := by
+  unfold exceeds Within
+  cases L with
+  | none => simp
+  | some l =>
+    simp only [Pos.adv]
+    cases hb : l.bytes with
+    | none =>
+      simp only [leOpt, Bool.false_or, Bool.or_eq_true, Bool.and_eq_true, decide_eq_true_eq, true_and]
+      omega
+    | some lb =>
+      simp only [leOpt, Bool.or_eq_true, Bool.and_eq_true, decide_eq_true_eq]
+      omega
+
+theorem sumPos_append (p : Pos) (a b : List Ch) : sumPos p (a ++ b) = sumPos (sumPos p a) b := by
+  induction a generalizing p with
+  | nil => rfl
+  | cons c a ih => simp only [List.cons_append, sumPos]; exact ih _
+
+/-! ### the loop over characters, grapheme by grapheme -/
+
+/-- A grapheme: one character of non-negative width followed by zero-width characters. -/
+def IsCluster (g : List Ch) : Prop := ∃ c z, g = c :: z ∧ 0 ≤ c.w ∧ ∀ x ∈ z, x.w = 0
+
+/-- A grapheme that starts with a spacing character. -/
+def Spacing (g : List Ch) : Prop := ∃ c z, g = c :: z ∧ 0 < c.w
+
+theorem runChars_zero_run (L : Option Limit) (t : Tail) :
+    ∀ (z : List Ch), (∀ x ∈ z, x.w = 0) → ∀ (rest : List Ch) (here pos : Pos), Within L here →
+      runChars L (z ++ rest) t here pos =
+        if Within L (sumPos here z) then runChars L rest t (sumPos here z) pos else ⟨false, pos⟩ := by
+  intro z
+  induction z with
+  | nil => intro _ rest here pos hw; simp [sumPos, hw]
+  | cons x z ih =>
+    intro hz rest here pos hw
+    have hx : x.w = 0 := hz x (by simp)
+    have hz' : ∀ y ∈ z, y.w = 0 := fun y hy => hz y (by simp [hy])
+    simp only [List.cons_append, runChars, sumPos]
+    have hnot : ¬ (x.w > 0) := by omega
+    simp only [hnot, if_false]
+    by_cases hex : exceeds L here x.n x.w = true
+    · simp only [hex, if_true]
+      have hnw := (exceeds_iff L here x.n x.w).1 hex
+      have : ¬ Within L (sumPos (here.adv x.n x.w) z) := fun h =>
+        hnw (within_of_le (le_sumPos z _ (fun y hy => by rw [hz' y hy]; exact Int.le_refl 0)) h)
+      simp [this]
+    · have hex' : exceeds L here x.n x.w = false := by simpa using hex
+      simp only [hex']
+      have hw' : Within L (here.adv x.n x.w) :=
+        Classical.byContradiction (fun hn => hex ((exceeds_iff L here x.n x.w).2 hn))
+      exact ih hz' rest _ pos hw'
+
+theorem runChars_cluster (L : Option Limit) (t : Tail) (c : Ch) (z : List Ch) (hc : 0 ≤ c.w)
+    (hz : ∀ x ∈ z, x.w = 0) (rest : List Ch) (here pos : Pos) :
+    runChars L ((c :: z) ++ rest) t here pos =
+      if Within L (sumPos here (c :: z)) then
+        runChars L rest t (sumPos here (c :: z)) (if c.w > 0 then here else pos)
+      else ⟨false, if c.w > 0 then here else pos⟩ := by
+  simp only [List.cons_append, runChars, sumPos]
+  by_cases hex : exceeds L here c.n c.w = true
+  · simp only [hex, if_true]
+    have hnw := (exceeds_iff L here c.n c.w).1 hex
+    have : ¬ Within L (sumPos (here.adv c.n c.w) z) := fun h =>
+      hnw (within_of_le (le_sumPos z _ (fun y hy => by rw [hz y hy]; exact Int.le_refl 0)) h)
+    simp [this]
+  · have hex' : exceeds L here c.n c.w = false := by simpa using hex
+    simp only [hex']
+    have hw' : Within L (here.adv c.n c.w) :=
+      Classical.byContradiction (fun hn => hex ((exceeds_iff L here c.n c.w).2 hn))
+    exact runChars_zero_run L t z hz rest _ _ hw'
+
+/-- **Refinement**: the character loop of the C code computes the grapheme-wise specification. -/
+theorem runChars_eq_specRun (L : Option Limit) (t : Tail) :
+    ∀ (gs : List (List Ch)), (∀ g ∈ gs, IsCluster g) → (∀ g ∈ gs.tail, Spacing g) →
+      ∀ (here pos : Pos), (pos = here ∨ ∃ g, gs.head? = some g ∧ Spacing g) →
+        runChars L gs.flatten t here pos = specRun L gs t here := by
+  intro gs
+  induction gs with
+  | nil =>
+    intro _ _ here pos h
+    have hp : pos = here := by
+      rcases h with h | ⟨g, hg, _⟩
+      · exact h
+      · simp at hg
+    subst hp
+    cases t <;> simp [runChars, specRun]
+  | cons g gs ih =>
+    intro hcl hsp here pos h
+    obtain ⟨c, z, rfl, hc, hz⟩ := hcl g (by simp)
+    have hpos : (if c.w > 0 then here else pos) = here := by
+      by_cases hcw : c.w > 0
+      · simp [hcw]
+      · simp only [hcw, if_false]
+        rcases h with h | ⟨g', hg', c', z', e, hc'⟩
+        · exact h
+        · simp only [List.head?_cons, Option.some.injEq] at hg'
+          subst hg'
+          injection e with e1 _
+          subst e1
+          exact absurd hc' hcw
+    rw [List.flatten_cons, runChars_cluster L t c z hc hz, hpos]
+    unfold specRun
+    by_cases hw : Within L (sumPos here (c :: z))
+    · simp only [hw, if_true]
+      cases gs with
+      | nil =>
+        cases t <;> simp [runChars, specRun]
+      | cons g' gs' =>
+        have hne : ¬ (g' :: gs' = [] ∧ t = Tail.err) := by simp
+        simp only [hne, if_false]
+        exact ih (fun x hx => hcl x (by simp [hx])) (fun x hx => hsp x (by
+            simp only [List.tail_cons] at hx ⊢
+            exact List.mem_of_mem_tail hx)) _ _
+          (Or.inr ⟨g', by simp, hsp g' (by simp)⟩)
+    · simp only [hw, if_false]
+
+
+/-! ### `clusters` groups characters into well-formed graphemes -/
+
+theorem clusters_flatten : ∀ (cs : List Ch), (clusters cs).flatten = cs := by
+  intro cs
+  induction cs with
+  | nil => rfl
+  | cons c cs ih =>
+    unfold clusters
+    cases hcl : clusters cs with
+    | nil => rw [hcl] at ih; simp at ih; simp [← ih]
+    | cons g gs =>
+      rw [hcl] at ih
+      cases g with
+      | nil => simp at ih ⊢; exact ih
+      | cons d r =>
+        simp only
+        split
+        · simp only [List.flatten_cons] at ih ⊢; simp [ih]
+        · simp only [List.flatten_cons] at ih ⊢; simp [ih]
+
+theorem clusters_wf : ∀ (cs : List Ch), (∀ c ∈ cs, 0 ≤ c.w) →
+    (∀ g ∈ clusters cs, IsCluster g) ∧ (∀ g ∈ (clusters cs).tail, Spacing g) := by
+  intro cs
+  induction cs with
+  | nil => intro _; simp [clusters]
+  | cons c cs ih =>
+    intro h
+    have hc : 0 ≤ c.w := h c (by simp)
+    obtain ⟨ih1, ih2⟩ := ih (fun x hx => h x (by simp [hx]))
+    unfold clusters
+    cases hcl : clusters cs with
+    | nil =>
+      simp only [List.mem_singleton, List.tail_cons, List.not_mem_nil, false_imp_iff, implies_true, and_true]
+      rintro g rfl; exact ⟨c, [], rfl, hc, by simp⟩
+    | cons g gs =>
+      rw [hcl] at ih1 ih2
+      cases g with
+      | nil =>
+        obtain ⟨_, _, e, _⟩ := ih1 [] (by simp)
+        cases e
+      | cons d r =>
+        simp only
+        obtain ⟨d', r', e, hd, hr⟩ := ih1 (d :: r) (by simp)
+        injection e with e1 e2; subst e1; subst e2
+        split
+        · rename_i hdw
+          refine ⟨?_, ?_⟩
+          · intro g hg
+            rcases List.mem_cons.1 hg with rfl | hg
+            · exact ⟨c, [], rfl, hc, by simp⟩
+            · exact ih1 g hg
+          · intro g hg
+            simp only [List.tail_cons] at hg
+            rcases List.mem_cons.1 hg with rfl | hg
+            · exact ⟨d, r, rfl, hdw⟩
+            · exact ih2 g (by simpa using hg)
+        · rename_i hdw
+          refine ⟨?_, ?_⟩
+          · intro g hg
+            rcases List.mem_cons.1 hg with rfl | hg
+            · refine ⟨c, d :: r, rfl, hc, ?_⟩
+              intro x hx
+              rcases List.mem_cons.1 hx with rfl | hx
+              · omega
+              · exact hr x hx
+            · exact ih1 g (by simp [hg])
+          · intro g hg
+            simp only [List.tail_cons] at hg
+            exact ih2 g (by simpa using hg)
+
+/-! ### the loop over memory is the loop over the scanned characters -/
+
+theorem wcwidth_cases (cp : Nat) : Width.wcwidth cp = -1 ∨ 0 ≤ Width.wcwidth cp := by
+  unfold Width.wcwidth
+  split
+  · right; decide
+  · unfold Width.mkWcwidth
+    split
+    · right; omega
+    · split
+      · left; rfl
+      · split
+        · right; omega
+        · right; split <;> omega
+
+theorem stepAt_ch_nonneg {mem : Mem} {str : Nat} {len : Option Nat} {n cp hi : Nat} {w : Int}
+    (h : stepAt mem str len = .ch n cp w hi) : 0 ≤ w ∧ w = Width.wcwidth cp := by
+  unfold stepAt at h
+  split at h
+  · cases h
+  · split at h
+    · cases h
+    · split at h
+      · cases h
+      · split at h
+        · cases h
+        · split at h
+          · cases h
+          · rename_i hne
+            injection h with _ e2 e3 _
+            subst e2
+            rcases wcwidth_cases _ with h | h
+            · exact absurd h hne
+            · exact ⟨e3 ▸ h, e3.symm⟩
+
+theorem scan_nonneg (mem : Mem) : ∀ (fuel str : Nat) (len : Option Nat) (cs : List Ch) (t : Tail),
+    scan mem fuel str len = some (cs, t) → ∀ c ∈ cs, 0 ≤ c.w := by
+  intro fuel
+  induction fuel with
+  | zero => intro str len cs t h; simp [scan] at h
+  | succ f ih =>
+    intro str len cs t h
+    unfold scan at h
+    split at h
+    · injection h with h; injection h with h1 _; subst h1; simp
+    · injection h with h; injection h with h1 _; subst h1; simp
+    · rename_i n cp w hi hst
+      split at h
+      · cases h
+      · rename_i cs' t' hsc
+        injection h with h; injection h with h1 h2; subst h1; subst h2
+        intro c hc
+        rcases List.mem_cons.1 hc with rfl | hc
+        · exact (stepAt_ch_nonneg hst).1
+        · exact ih _ _ _ _ hsc c hc
+
+theorem loop_eq_runChars (mem : Mem) (L : Option Limit) (start : Nat) :
+    ∀ (fuel str : Nat) (len : Option Nat) (here pos : Pos) (hi : Nat) (cs : List Ch) (t : Tail),
+      scan mem fuel str len = some (cs, t) →
+      ∃ hi', loop mem L start fuel str len here pos hi =
+        .ret ((runChars L cs t here pos).ret start) (runChars L cs t here pos).pos hi' := by
+  intro fuel
+  induction fuel with
+  | zero => intro str len here pos hi cs t h; simp [scan] at h
+  | succ f ih =>
+    intro str len here pos hi cs t h
+    unfold scan at h
+    unfold loop
+    split at h
+    · rename_i hh hst
+      injection h with h; injection h with h1 h2; subst h1; subst h2
+      exact ⟨max hi hh, by simp [runChars, Res.ret]⟩
+    · rename_i hh hst
+      injection h with h; injection h with h1 h2; subst h1; subst h2
+      exact ⟨max hi hh, by simp [runChars, Res.ret]⟩
+    · rename_i n cp w hh hst
+      split at h
+      · cases h
+      · rename_i cs' t' hsc
+        injection h with h; injection h with h1 h2; subst h1; subst h2
+        simp only [runChars]
+        by_cases hex : exceeds L here n w = true
+        · simp only [hex, if_true]; exact ⟨max hi hh, by simp [Res.ret]⟩
+        · have hex' : exceeds L here n w = false := by simpa using hex
+          simp only [hex']
+          exact ih _ _ _ _ _ _ _ hsc
+
+/-- **`tickit_utf8_ncountmore` computes the specification** over the characters its loop meets. -/
+theorem ncountmore_eq_spec (mem : Mem) (fuel : Nat) (len : Option Nat) (pos : Pos) (L : Option Limit)
+    (cs : List Ch) (t : Tail) (h : scan mem fuel pos.bytes (lenSub len pos.bytes) = some (cs, t)) :
+    ∃ hi, ncountmore mem fuel len pos L =
+      .ret ((specRun L (clusters cs) t pos).ret pos.bytes) (specRun L (clusters cs) t pos).pos hi := by
+  obtain ⟨hi, hl⟩ := loop_eq_runChars mem L pos.bytes fuel pos.bytes (lenSub len pos.bytes) pos pos 0 cs t h
+  obtain ⟨w1, w2⟩ := clusters_wf cs (scan_nonneg mem _ _ _ _ _ h)
+  have := runChars_eq_specRun L t (clusters cs) w1 w2 pos pos (Or.inl rfl)
+  rw [clusters_flatten] at this
+  rw [this] at hl
+  exact ⟨hi, hl⟩
+
 end Utf8
 end Tickit
